@@ -38,8 +38,11 @@ LEVEL_NOTE = ("Partial by nature: that the OS/threading library delivers notify/
               "('promptly' = watchdog), the GIL and scheduling are outside the model and only exercised by the "
               "watchdog matrix.  A local close() is modelled by the actions of the closing thread only (the "
               "transport thread's concurrent epilogue repeats a subset of them).  The identification of source "
-              "statements with wake actions is the translator gen/c13.py (trusted, fail-closed); test-and-wait "
-              "atomicity of Condition waits is assumed (they are used under their lock).  Channel.sendall "
+              "statements with wake actions is the translator gen/c13.py (trusted, fail-closed); the translator "
+              "counts a pre-test only when it sits in the same lock-held region as the Condition wait (a test "
+              "hoisted out of the lock is a lost-wake-up window and breaks C13_every_api), given which the "
+              "model treats test-and-wait as atomic w.r.t. notify_all; the matrix forces that window on the real "
+              "code by pausing the caller just before it takes the lock while the ending runs to completion.  Channel.sendall "
               "spinning after shutdown_write is C25's.  Models the repaired accept()/close()/ProxyCommand.recv "
               "(fixes/C13-*.diff); the v0 tables are refuted in C13_accept_v0_refuted / "
               "C13_proxy_recv_v0_diverges.")
@@ -171,6 +174,16 @@ def gen_read_case(rng):
     return rem, envs, n, cr
 
 
+def safe_mismatches(ctx, run_fn, case_type, cases):
+    """ctx.model_mismatches, but a model/translator failure only breaks the correspondence: the
+    implementation-level oracle of the remaining parts still runs and yields its concrete inputs."""
+    try:
+        return ctx.model_mismatches(run_fn, case_type, cases)
+    except Exception as e:   # noqa
+        ctx.disagree("model %s could not be evaluated: %s" % (run_fn, str(e)[-400:]))
+        return []
+
+
 def part_read_all(ctx, count):
     rng = ctx.rng
     cases = []
@@ -185,8 +198,8 @@ def part_read_all(ctx, count):
         if envs and envs[-1][0] == 0 and len(envs[-1][1]) == 0 and out == [99]:
             ctx.fail("read_all-ignores-eof", "Packetizer.read_all keeps reading after recv() returned b''",
                      case={"remainder": rem, "script": envs, "n": n}, expected="EOFError", observed="still reading")
-    bad = ctx.model_mismatches(
-        "run_read_all", "(list Z * list (Z * list Z * bool * bool * bool) * Z * bool)",
+    bad = safe_mismatches(
+        ctx, "run_read_all", "(list Z * list (Z * list Z * bool * bool * bool) * Z * bool)",
         [(coq((list(rem), [(k, list(d), hs, cl, nr) for k, d, hs, cl, nr in envs], n, cr)), out)
          for (rem, envs, n, cr), out in cases])
     for i in bad[:3]:
@@ -294,7 +307,7 @@ def part_proxy(ctx, count):
             ctx.fail("proxycommand-recv-spins-at-eof",
                      "ProxyCommand.recv keeps looping after os.read returned b'' (process closed its stdout)",
                      case={"script": steps, "size": size}, expected="short/empty read", observed="still looping")
-    bad = ctx.model_mismatches("run_proxy_recv", "(list (Z * list Z) * Z)",
+    bad = safe_mismatches(ctx, "run_proxy_recv", "(list (Z * list Z) * Z)",
                                [(coq(([(k, list(d)) for k, d in steps], size)), out)
                                 for (steps, size, _), out in cases])
     for i in bad[:3]:
@@ -397,7 +410,7 @@ USER_TIMEOUT_APIS = {"accept", "recv", "send"}
 ENDINGS = ["peer-close", "socket-eof", "protocol-error", "local-close"]
 ENDING_CODE = {"peer-close": 1, "socket-eof": 2, "proxy-exit": 3, "protocol-error": 4, "local-close": 5}
 PHASES = ["before", "during", "after"]
-PHASE_K = {"before": 0, "during": 3, "after": 64}
+PHASE_K = {"before": 0, "during": 3, "after": 64, "gap": 64}
 
 
 class Tap:
@@ -432,6 +445,42 @@ class Tap:
 
     def close(self):
         self.inner.close()
+
+
+class HookLock:
+    """Wraps a lock on ONE instance: the first time thread `target` is about to acquire it, `hook`
+    runs to completion first.  Forces the interleaving "the connection ends between the caller's
+    entry into the API and its taking the condition's lock" deterministically."""
+
+    def __init__(self, real):
+        self.real = real
+        self.target = None
+        self.hook = None
+        self.armed = False
+        self.fired = False
+
+    def acquire(self, *a, **kw):
+        if self.armed and threading.current_thread() is self.target:
+            self.armed = False
+            self.fired = True
+            self.hook()
+        return self.real.acquire(*a, **kw)
+
+    def release(self):
+        return self.real.release()
+
+    def locked(self):
+        return self.real.locked()
+
+    def __enter__(self):
+        self.acquire()
+        return self
+
+    def __exit__(self, *exc):
+        self.release()
+
+
+GAP_APIS = ("accept", "recv", "send")     # the calls that park on a Condition under a lock
 
 
 class Cell:
@@ -555,6 +604,34 @@ class Cell:
             return self.chan.recv_exit_status()
         raise ValueError(api)
 
+    def arm_gap(self, thread, hook):
+        """Pause `thread` just before it first takes the lock of the condition it will wait on."""
+        if self.api == "accept":
+            owner, attr = self.ts, "lock"
+        elif self.api == "recv":
+            owner, attr = self.chan.in_buffer, "_lock"
+        elif self.api == "send":
+            owner, attr = self.chan, "lock"
+        else:
+            raise ValueError(self.api)
+        h = HookLock(getattr(owner, attr))
+        h.target, h.hook, h.armed = thread, hook, True
+        setattr(owner, attr, h)
+        return h
+
+    def end_completely(self, ending):
+        """Run the ending on another thread and wait until all its wake actions are done."""
+        th = threading.Thread(target=self._swallow, args=(lambda: self.end(ending),), daemon=True)
+        th.start()
+        th.join(WATCH)
+        _wait_inactive(self.x, WATCH)
+        if self.x.is_alive() and self.x is not threading.current_thread():
+            self.x.join(WATCH)            # the transport thread's epilogue (unlink, notify_all)
+        if self.chan is not None:
+            end = time.time() + WATCH
+            while not self.chan.closed and time.time() < end:
+                time.sleep(0.01)
+
     # -- ending the connection -----------------------------------------------------------------
     def end(self, ending):
         from paramiko.message import Message
@@ -634,7 +711,30 @@ def run_cell(api, ending, phase, tmo):
                 box["e"] = e
 
         th = threading.Thread(target=target, daemon=True)
-        if phase == "after":
+        if phase == "gap":
+            done = threading.Event()
+
+            def hook():
+                try:
+                    cell.end_completely(ending)
+                finally:
+                    done.set()
+
+            h = cell.arm_gap(th, hook)
+            th.start()
+            limit = time.time() + 4 * WATCH
+            while not done.is_set() and th.is_alive() and time.time() < limit:
+                done.wait(0.05)
+            if not h.fired:
+                th.join(WATCH)
+                return "setup-failed", "the call never took the wrapped lock"
+            if not done.is_set():
+                return "setup-failed", "the ending did not complete inside the gap"
+            th.join(WATCH)
+            if th.is_alive():
+                return "hang", ("still blocked %ss after %s ran to completion between the call's entry and "
+                                "its acquiring the condition's lock (lost wake-up)" % (WATCH, ending))
+        elif phase == "after":
             cell.end(ending)
             if not _wait_inactive(cell.x, WATCH) and api not in ("start_client", "start_server"):
                 return "hang", "transport still active %ss after %s" % (WATCH, ending)
@@ -649,7 +749,8 @@ def run_cell(api, ending, phase, tmo):
                 if not th.is_alive():
                     return "setup-failed", "call did not block: %r" % (box,)
             cell.end(ending)
-        th.join(WATCH)
+        if phase != "gap":
+            th.join(WATCH)
         if th.is_alive():
             return "hang", "still blocked %ss after %s" % (WATCH, ending)
         if "e" in box:
@@ -667,13 +768,17 @@ def all_cells():
             for phase in PHASES:
                 for tmo in ((False, True) if api in USER_TIMEOUT_APIS else (False,)):
                     cells.append((api, ending, phase, tmo))
+            if api in GAP_APIS:
+                # forced interleaving: the ending completes between entry and taking the lock
+                cells.append((api, ending, "gap", False))
     return cells
 
 
 def part_matrix(ctx):
     rng = ctx.rng
     cells = all_cells()
-    must = [c for c in cells if c[0] == "accept" and c[1] in ("local-close", "peer-close") and not c[3]]
+    must = [c for c in cells if (c[0] == "accept" and c[1] in ("local-close", "peer-close") and not c[3])
+            or c[2] == "gap"]
     if not ctx.thorough:
         # representative subset: all formerly failing accept cells, and for every API x ending one
         # randomly chosen (phase, timeout) -- so every API meets every ending and every phase occurs
@@ -778,7 +883,7 @@ def part_matrix(ctx):
                      "%s returned normally although the connection ended before any answer" % api,
                      case={"api": api, "ending": ending, "phase": phase}, expected="exception", observed=detail)
     ctx.notes.append("matrix outcomes: %s" % sorted(outcomes.items()))
-    bad = ctx.model_mismatches("run_cell", "(Z * Z * bool * Z)", model_cases)
+    bad = safe_mismatches(ctx, "run_cell", "(Z * Z * bool * Z)", model_cases)
     for i in bad[:5]:
         ctx.disagree("cell outcome differs from the wake-graph model's prediction",
                      case=dict(zip(("api", "ending", "phase", "timeout"), keys[i])), model="returns",
@@ -797,7 +902,8 @@ def run(ctx):
                 "Packetizer.read_all; B: seeded scripts of select/os.read/time results for ProxyCommand.recv plus "
                 "real short-lived subprocesses; C: matrix of blocking API x {peer DISCONNECT, socket EOF, damaged "
                 "packet / bad banner, local close()} x {blocked before, racing, called after} x {no timeout, caller "
-                "timeout} on fresh in-process Transport pairs (quick: every API x phase once + all accept cells; "
+                "timeout}, plus for accept/recv/send the forced interleaving 'the ending runs to completion between "
+                "the call's entry and its acquiring the condition's lock' (instance lock wrapped) on fresh in-process Transport pairs (quick: every API x ending and API x phase once + all accept and forced-interleaving cells; "
                 "thorough: all cells), watchdog %ss, one retry before a hang is believed.  A case is non-trivial "
                 "when distinct and its script / cell is not empty." % WATCH)
     ctx.trusted += ["translator gen/c13.py (AST -> wake graph), fail-closed on unrecognised statements",
